@@ -361,12 +361,22 @@ class SymFloat(float):
         return _mod(a, self.t)
 
     def __floordiv__(self, o):
-        raise SymLeak('// on SymFloat is not modelled')
+        b = lift(o)
+        if b is None:
+            return NotImplemented
+        return SymFloat(z3.ToReal(_floor_term(_div(self.t, b).t)))
 
-    __rfloordiv__ = __floordiv__
+    def __rfloordiv__(self, o):
+        a = lift(o)
+        if a is None:
+            return NotImplemented
+        return SymFloat(z3.ToReal(_floor_term(_div(a, self.t).t)))
 
     def __divmod__(self, o):
-        raise SymLeak('divmod on SymFloat is not modelled')
+        return self.__floordiv__(o), self.__mod__(o)
+
+    def __rdivmod__(self, o):
+        return self.__rfloordiv__(o), self.__rmod__(o)
 
     # ---- comparisons
     def _cmp(self, o, f):
@@ -400,13 +410,24 @@ class SymFloat(float):
     def __hash__(self):
         return engine().on_hash(self)
 
+    def __floor__(self):
+        return SymInt(_floor_term(self.t))
+
+    def __ceil__(self):
+        return SymInt(-_floor_term(-self.t))
+
+    def __trunc__(self):
+        return SymInt(z3.If(self.t >= 0, _floor_term(self.t), -_floor_term(-self.t)))
+
     def __float__(self):
         return self
 
     def __int__(self):
-        raise SymLeak('int() of SymFloat')
+        # int() must return a real int: fork over the (few) values the truncation can take on this path
+        return self.__trunc__().__index__()
 
-    __index__ = __trunc__ = __floor__ = __ceil__ = __int__
+    def __index__(self):
+        raise TypeError("'float' object cannot be interpreted as an integer")
 
     def __round__(self, n=None):
         return engine().on_round(self, n)
@@ -422,7 +443,7 @@ class SymFloat(float):
         return f'SymFloat({s if len(s) < 120 else s[:117] + "..."})'
 
     def is_integer(self):
-        raise SymLeak('is_integer on SymFloat')
+        return engine().decide(self.t == z3.ToReal(_floor_term(self.t)))
 
     def __reduce__(self):
         raise SymLeak('pickling SymFloat')
@@ -445,6 +466,7 @@ def _div(a, b):
 
 
 U53 = None
+SYM_HASH = 0x53594D58
 
 
 def _rounded(t):
@@ -464,10 +486,28 @@ def _rounded(t):
     return SymFloat(t + e)
 
 
+def _floor_term(t):
+    """integer term k with k <= t < k + 1 (one k per distinct argument on a path)"""
+    eng = engine()
+    t = z3.simplify(t)
+    if term_is_num(t) and not z3.is_algebraic_value(t):
+        return z3.IntVal(math.floor(num_of(t)))
+    key = ('floor', t.sexpr())
+    hit = eng.summaries.get(key)
+    if hit is not None:
+        return hit[0]
+    k = eng.fresh_int('floor')
+    eng.add_axiom(z3.And(z3.ToReal(k) <= t, t < z3.ToReal(k) + 1))
+    eng.summaries[key] = (k, [])
+    return k
+
+
 def _mod(a, b):
-    """a % b for b a positive numeral: a - k*b with integer k, 0 <= result < b"""
+    """Python's a % b = a - b*floor(a/b) (sign of the divisor; ZeroDivisionError forks).
+    For b a positive numeral: a - k*b with integer k, 0 <= result < b"""
     if not term_is_num(b) or num_of(b) <= 0:
-        raise SymLeak('% with non-constant or non-positive modulus')
+        q = _floor_term(_div(a, b).t)
+        return SymFloat(a - b * z3.ToReal(q))
     eng = engine()
     key = ('mod', z3.simplify(a).sexpr() + '|' + b.sexpr())
     hit = eng.summaries.get(key)
@@ -579,10 +619,53 @@ class SymInt:
     def __ne__(self, o):
         return self._cmp(o, lambda a, b: a != b)
 
-    __hash__ = None  # type: ignore
+    def __hash__(self):
+        engine().note_assumption('symbolic values used as dict/set/cache keys are matched against other symbolic keys only')
+        return SYM_HASH
 
     def __bool__(self):
         return engine().decide(self.t != 0)
+
+    def __pos__(self):
+        return self
+
+    def __abs__(self):
+        return SymInt(z3.If(self.t >= 0, self.t, -self.t))
+
+    def __floordiv__(self, o):
+        b = self._l(o)
+        if b is None or not z3.is_int_value(z3.simplify(b)) or z3.simplify(b).as_long() <= 0:
+            return SymFloat(z3.ToReal(self.t)).__floordiv__(o)
+        return SymInt(self.t / b)          # z3 integer division = floor for a positive divisor
+
+    def __mod__(self, o):
+        b = self._l(o)
+        if b is None or not z3.is_int_value(z3.simplify(b)) or z3.simplify(b).as_long() <= 0:
+            return SymFloat(z3.ToReal(self.t)).__mod__(o)
+        return SymInt(self.t % b)
+
+    def __rfloordiv__(self, o):
+        return SymFloat(z3.ToReal(self.t)).__rfloordiv__(o)
+
+    def __rmod__(self, o):
+        return SymFloat(z3.ToReal(self.t)).__rmod__(o)
+
+    def __pow__(self, o):
+        return SymFloat(z3.ToReal(self.t)).__pow__(o)
+
+    def __index__(self):
+        """a real int is needed (range(), indexing, int()): fork over the feasible values, at most 64 per site"""
+        eng = engine()
+        t = z3.simplify(self.t)
+        if z3.is_int_value(t):
+            return t.as_long()
+        for _ in range(64):
+            v = eng.pick_int(t)
+            if eng.decide(t == v):
+                return v
+        raise SymLeak('symbolic integer with more than 64 feasible values used as a concrete int')
+
+    __int__ = __index__
 
     def concretize(self, lo: int, hi: int) -> int:
         """fork over the values lo..hi"""
@@ -682,6 +765,7 @@ class Engine:
         self.fresh_n = 0
         self.hash_hook: Optional[Callable] = None
         self.round_hook: Optional[Callable] = None
+        self.path_start_hooks: List[Callable] = []
 
     @staticmethod
     def _configure(s, rlimit, timeout_ms):
@@ -724,6 +808,8 @@ class Engine:
 
     # ---- path state
     def _start_path(self, prefix):
+        for hook in self.path_start_hooks:
+            hook()
         self.solver.reset()
         self._configure(self.solver, self.rlimit, self.timeout_ms)
         self.prefix = prefix
@@ -799,6 +885,8 @@ class Engine:
             raise PathAbort('bound', f'decision bound {self.max_decisions}')
         if i < len(self.prefix):
             d = self.prefix[i]
+            if not isinstance(d, bool):
+                raise HarnessError('non-deterministic re-execution (expected a recorded decision)')
             lit = c if d else z3.Not(c)
             self.pc.append(lit)
             self._assert(lit)
@@ -848,6 +936,28 @@ class Engine:
         self.decisions.append(d)
         self.model = model_t if d else model_f
         return d
+
+    def pick_int(self, t) -> int:
+        """a feasible value of the integer term t on this path; recorded in the decision trace so that re-execution
+        along a prefix picks the same value"""
+        i = len(self.decisions)
+        if i < len(self.prefix):
+            d = self.prefix[i]
+            if not (isinstance(d, tuple) and d[0] == 'val'):
+                raise HarnessError('non-deterministic re-execution (expected a recorded value)')
+            self.decisions.append(d)
+            return d[1]
+        if self.model is None:
+            r = self._check()
+            if r == 'unsat':
+                raise PathAbort('infeasible', 'path condition became infeasible')
+            if r != 'sat':
+                raise SymLeak('no model to concretise a symbolic integer')
+            self.model = self.solver.model()
+        tt = self._nlabs(t) if self.linear_feasibility else t
+        v = self.model.eval(tt, model_completion=True).as_long()
+        self.decisions.append(('val', v))
+        return v
 
     # ---- summaries of transcendental functions
     def summary(self, fname: str, args: list, axioms: Optional[Callable] = None):
@@ -905,7 +1015,10 @@ class Engine:
     def on_hash(self, x):
         if self.hash_hook is not None:
             return self.hash_hook(x)
-        raise SymLeak('hash() of SymFloat')
+        # containers keyed by symbolic values: every symbolic value lands in ONE bucket, so that the container falls back on
+        # == (decided by the solver, forking).  A symbolic key is never matched against a concrete key with another hash.
+        self.note_assumption('symbolic values used as dict/set/cache keys are matched against other symbolic keys only')
+        return SYM_HASH
 
     def on_round(self, x, n):
         if self.round_hook is not None:
